@@ -94,4 +94,226 @@ MeanFrom(cons, i) ==
        IF c.has THEN [den |-> r.den + c.w * c.cw, nx |-> r.nx + c.w * c.cw * c.x, ny |-> r.ny + c.w * c.cw * c.y, nz |-> r.nz + c.w * c.cw * c.z]
        ELSE r                                   \* constituents without coordinates never contribute
 Mean(cons) == MeanFrom(cons, 1)
+
+(* ===================================================================================================================
+   Generic form (added for modification mappings and for the shipped mappings on real structures).
+   Nothing above is changed; the operators below are prefixed with G.
+
+   M   == [nodes : Seq([id, resid, name, element, hasmods : BOOLEAN, mods : Seq(STRING), attrs : Seq(<<key, value>>)]),
+           edges : Seq(<<a, b>>)]
+          name = the name the matcher compares (_old_atomname if the atom has one, else atomname); hasmods = the atom has a
+          'modifications' attribute, mods = the names of the modifications in it; attrs = the other attributes some mapping
+          compares, values as canonical strings
+   mp  == [type : "block" | "modification", names : Seq(STRING),
+           from : [nodes : Seq([resid (-1 = none), name, hasmods, mods, attrs : Seq([k, v, falsy])]), edges : Seq(<<i, j>>)],
+           to   : [nodes : Seq([resid, atomname, atype, ptm : BOOLEAN, ratype ("-" = no replacement)]), edges : Seq(<<i, j>>),
+                   inters : Seq([type, atoms : Seq(i), params, ver])],
+           w    : Seq(<<i, j, weight>>)]         nodes are referred to by their position in from.nodes / to.nodes
+
+   Which mappings apply where
+     block mapping        : every induced embedding of mp.from that matches names and compared attributes and, on every bond,
+                            the same-residue relation                                  (Mapping.map + _old_atomname_match + edge_matcher)
+     modification mapping : the atoms carrying modifications fall into connected groups; the modification names of a group are
+                            covered exactly by the names of known modification mappings (longest names first, first cover in
+                            that order); every mapping needed by some group is placed at every induced embedding of its from
+                            graph (names, compared attributes, its modifications among those of the atom; no residue relation
+                            on bonds)                                                  (modification_matches + cover + ptm_resname_match)
+   In which order       : blocks by their lowest atom; a modification by its highest atom when it touches a particle that must
+                            already exist, by its lowest atom when it only creates particles; the lowest key goes first, a
+                            block before a modification with the same key             (block_sort_key / mod_sort_key)
+   What applying does   : GApplyBlock as ApplyBlock above; GApplyMod re-uses, for every to-node that is not a new particle, the
+                            particle of that name to which the atoms mapped onto it already contribute (replacing its type when
+                            the mapping says so), appends a new particle (next key) for every other to-node, overrides /
+                            extends the weights of exactly the atoms of the placement, adds the modification's bonds, and adds
+                            its interactions, replacing an interaction of the same type, atoms and version in place
+   =================================================================================================================== *)
+
+GCtx(M) ==
+  LET ids == {M.nodes[i].id : i \in DOMAIN M.nodes}
+      node == [n \in ids |-> M.nodes[CHOOSE i \in DOMAIN M.nodes : M.nodes[i].id = n]]
+      names == {M.nodes[i].name : i \in DOMAIN M.nodes}
+  IN [node |-> node,
+      nbr |-> [n \in ids |-> {M.edges[i][2] : i \in {j \in DOMAIN M.edges : M.edges[j][1] = n}}
+                             \cup {M.edges[i][1] : i \in {j \in DOMAIN M.edges : M.edges[j][2] = n}}],
+      byname |-> [nm \in names |-> {n \in ids : node[n].name = nm}]]
+
+GAttr(mn, k) == IF \E i \in DOMAIN mn.attrs : mn.attrs[i][1] = k
+                THEN mn.attrs[CHOOSE i \in DOMAIN mn.attrs : mn.attrs[i][1] = k][2] ELSE "<absent>"
+GIgnored == {"atype", "charge", "charge_group", "mass", "resid", "replace", "_old_atomname"}
+\* one attribute of a from-node against an atom: equal values; an absent attribute only equals None, and 'order' is only
+\* compared when the atom has one; a modification mapping does not compare an empty resname or a false PTM_atom
+GAttrOK(mn, a, ismod) ==
+  \/ a.k \in GIgnored
+  \/ ismod /\ a.falsy /\ a.k \in {"resname", "PTM_atom"}
+  \/ LET v == GAttr(mn, a.k) IN (v = a.v) \/ (v = "<absent>" /\ (a.k = "order" \/ a.v = "None"))
+GModsOK(mn, pn, ismod) ==
+  IF ismod THEN (IF mn.hasmods THEN SeqSet(pn.mods) \subseteq SeqSet(mn.mods) ELSE ~pn.hasmods)
+  ELSE pn.hasmods => (mn.hasmods /\ mn.mods = pn.mods)
+
+GPat(mp) == [padj |-> [i \in DOMAIN mp.from.nodes |->
+                         {mp.from.edges[e][2] : e \in {x \in DOMAIN mp.from.edges : mp.from.edges[x][1] = i}}
+                         \cup {mp.from.edges[e][1] : e \in {x \in DOMAIN mp.from.edges : mp.from.edges[x][2] = i}}]]
+
+GFits(C, mp, P, f, k, x) ==
+  LET pn == mp.from.nodes[k]  mn == C.node[x]  ismod == (mp.type = "modification") IN
+  /\ x \notin RangeOf(f)
+  /\ mn.name = pn.name
+  /\ GModsOK(mn, pn, ismod)
+  /\ \A i \in DOMAIN pn.attrs : GAttrOK(mn, pn.attrs[i], ismod)
+  /\ \A p \in DOMAIN f : (p \in P.padj[k]) = (f[p] \in C.nbr[x])                              \* induced
+  /\ ~ismod => \A p \in (DOMAIN f) \cap P.padj[k] :
+                  (mp.from.nodes[p].resid = pn.resid) = (C.node[f[p]].resid = mn.resid)          \* same-residue relation on bonds
+
+\* candidates are pre-filtered: atoms of the right name, next to the image of an already placed neighbour if there is one
+RECURSIVE GExtend(_, _, _, _, _)
+GExtend(C, mp, P, f, todo) ==
+  IF todo = <<>> THEN {f}
+  ELSE LET k == Head(todo)
+           nm == mp.from.nodes[k].name
+           named == IF nm \in DOMAIN C.byname THEN C.byname[nm] ELSE {}
+           prev == (DOMAIN f) \cap P.padj[k]
+           cands == IF prev = {} THEN named ELSE C.nbr[f[CHOOSE p \in prev : TRUE]] \cap named
+       IN UNION {GExtend(C, mp, P, (k :> n) @@ f, Tail(todo)) : n \in {x \in cands : GFits(C, mp, P, f, k, x)}}
+GPlacements(C, mp) == GExtend(C, mp, GPat(mp), EmptyMap, [i \in DOMAIN mp.from.nodes |-> i])
+
+GBlockPl(C, mps) ==
+  UNION {{[m |-> i, f |-> g, kind |-> "block", key |-> MinOf(RangeOf(g))] : g \in GPlacements(C, mps[i])}
+         : i \in {j \in DOMAIN mps : mps[j].type = "block"}}
+
+\* ---- which modification mappings are needed
+GModified(C) == {n \in DOMAIN C.node : C.node[n].mods # <<>>}
+RECURSIVE GGrow(_, _, _, _)
+GGrow(C, U, S, front) == IF front = {} THEN S
+                         ELSE LET new == ((UNION {C.nbr[x] : x \in front}) \cap U) \ S IN GGrow(C, U, S \cup new, new)
+GGroups(C) == LET U == GModified(C) IN {GGrow(C, U, {n}, {n}) : n \in U}
+GGroupNames(C, g) == UNION {SeqSet(C.node[n].mods) : n \in g}
+
+GModIdx(mps) == SelectSeq([i \in DOMAIN mps |-> i], LAMBDA i : mps[i].type = "modification")
+RECURSIVE GOptFrom(_, _)
+GOptFrom(mps, L) == IF L = 0 THEN <<>>
+                    ELSE SelectSeq(GModIdx(mps), LAMBDA i : Len(mps[i].names) = L) \o GOptFrom(mps, L - 1)
+\* known modification mappings, most names first, otherwise in the order in which they are known
+GOptions(mps) == LET idx == GModIdx(mps) IN
+                 IF idx = <<>> THEN <<>> ELSE GOptFrom(mps, MaxOf({Len(mps[idx[i]].names) : i \in DOMAIN idx}))
+
+\* cover(): the first option all of whose names are still to be covered and after which the rest can be covered
+RECURSIVE GCover(_, _, _, _)
+GCover(mps, opts, S, i) ==
+  IF S = {} THEN [ok |-> TRUE, sel |-> {}]
+  ELSE IF i > Len(opts) THEN [ok |-> FALSE, sel |-> {}]
+  ELSE LET nm == SeqSet(mps[opts[i]].names)
+           sub == IF nm \subseteq S THEN GCover(mps, opts, S \ nm, i) ELSE [ok |-> FALSE, sel |-> {}]
+       IN IF sub.ok THEN [ok |-> TRUE, sel |-> sub.sel \cup {opts[i]}] ELSE GCover(mps, opts, S, i + 1)
+\* declarative counterpart (checked against GCover by spec/MappingCover.tla): the selections that cover S exactly
+GExactCovers(mps, S) == {sel \in SUBSET SeqSet(GModIdx(mps)) :
+                           /\ UNION {SeqSet(mps[i].names) : i \in sel} = S
+                           /\ \A i, j \in sel : i # j => SeqSet(mps[i].names) \cap SeqSet(mps[j].names) = {}}
+
+GGroupCover(C, mps, g) == GCover(mps, GOptions(mps), GGroupNames(C, g), 1)
+GNeeded(C, mps) == UNION {GGroupCover(C, mps, g).sel : g \in {h \in GGroups(C) : GGroupCover(C, mps, h).ok}}
+GNoMapping(C, mps) == {g \in GGroups(C) : ~GGroupCover(C, mps, g).ok}          \* each raises an unmapped-atom warning
+
+GModKey(mp, g) == IF \E t \in SeqSet(mp.w) : ~mp.to.nodes[t[2]].ptm THEN MaxOf(RangeOf(g)) ELSE MinOf(RangeOf(g))
+GModPl(C, mps) ==
+  UNION {{[m |-> i, f |-> g, kind |-> "mod", key |-> GModKey(mps[i], g)] : g \in GPlacements(C, mps[i])} : i \in GNeeded(C, mps)}
+\* a placement outside the modified atoms, or two placements sharing an atom
+GModOverlap(C, mps) == LET pl == GModPl(C, mps) IN
+  \/ \E p \in pl : ~(RangeOf(p.f) \subseteq GModified(C))
+  \/ \E p, q \in pl : p # q /\ RangeOf(p.f) \cap RangeOf(q.f) # {}
+
+\* ---- order of application
+RECURSIVE GSortByKey(_)
+GSortByKey(S) == IF S = {} THEN <<>>
+                 ELSE LET lo == MinOf({p.key : p \in S})  first == CHOOSE p \in S : p.key = lo
+                      IN <<first>> \o GSortByKey(S \ {first})
+RECURSIVE GMerge(_, _)
+GMerge(bs, ms) == IF ms = <<>> THEN bs ELSE IF bs = <<>> THEN ms
+                  ELSE IF ms[1].key < bs[1].key THEN <<ms[1]>> \o GMerge(bs, Tail(ms)) ELSE <<bs[1]>> \o GMerge(Tail(bs), ms)
+GKeysDistinct(S) == \A p, q \in S : p # q => p.key # q.key
+GOrderDetermined(C, mps) == GKeysDistinct(GBlockPl(C, mps)) /\ GKeysDistinct(GModPl(C, mps))
+GOrder(C, mps) == GMerge(GSortByKey(GBlockPl(C, mps)), GSortByKey(GModPl(C, mps)))
+
+\* ---- effect of one placement
+\* out == [parts : Seq([key, resid, atomname, atype, cons, n2o, pl, added, mods : Seq(mapping number)]), edges, inters,
+\*         err : a re-used particle does not exist (do_mapping raises), amb : several particles qualify (unspecified)]
+GEmpty == [parts |-> <<>>, edges |-> {}, inters |-> <<>>, err |-> FALSE, amb |-> FALSE]
+GKeys(out) == {out.parts[i].key : i \in DOMAIN out.parts}
+
+GApplyBlock(out, mp, f, plno) ==
+  LET base == IF out.parts = <<>> THEN 0 ELSE MaxOf(GKeys(out))
+      prevb == {i \in DOMAIN out.parts : ~out.parts[i].added}
+      dres == IF prevb = {} THEN 0 ELSE out.parts[MaxOf(prevb)].resid      \* residue number of the last particle made by a block
+      wOf(tk) == SelectSeq(mp.w, LAMBDA t : t[2] = tk)
+      part(i) == LET tn == mp.to.nodes[i]  ws == wOf(i) IN
+                 [key |-> base + i, resid |-> tn.resid + dres, atomname |-> tn.atomname, atype |-> tn.atype, pl |-> plno,
+                  n2o |-> ws = <<>>, added |-> FALSE, mods |-> <<>>,
+                  cons |-> IF ws = <<>> THEN [j \in DOMAIN mp.from.nodes |-> <<f[j], 0>>]
+                           ELSE [j \in DOMAIN ws |-> <<f[ws[j][1]], ws[j][3]>>]]
+  IN [out EXCEPT !.parts = @ \o [i \in DOMAIN mp.to.nodes |-> part(i)],
+                 !.edges = @ \cup {Norm(base + mp.to.edges[i][1], base + mp.to.edges[i][2]) : i \in DOMAIN mp.to.edges},
+                 !.inters = @ \o [i \in DOMAIN mp.to.inters |->
+                                    [mp.to.inters[i] EXCEPT !.atoms = [j \in DOMAIN @ |-> base + @[j]]]]]
+
+GAddOrReplace(inters, it) ==
+  LET same == {i \in DOMAIN inters : inters[i].type = it.type /\ inters[i].atoms = it.atoms /\ inters[i].ver = it.ver}
+  IN IF same = {} THEN Append(inters, it) ELSE [inters EXCEPT ![MinOf(same)] = it]
+RECURSIVE GAddInters(_, _, _)
+GAddInters(inters, new, i) == IF i > Len(new) THEN inters ELSE GAddInters(GAddOrReplace(inters, new[i]), new, i + 1)
+
+\* weights of the placement override / extend the constituents of a particle
+GOverride(cons, ws) == SelectSeq(cons, LAMBDA c : \A j \in DOMAIN ws : ws[j][1] # c[1]) \o ws
+
+GApplyMod(out, mp, mno, f, plno) ==
+  LET tn == mp.to.nodes
+      base == IF out.parts = <<>> THEN 0 - 1 ELSE MaxOf(GKeys(out))
+      nth(i) == Cardinality({j \in 1..i : tn[j].ptm})
+      atomsTo(i) == {f[mp.w[t][1]] : t \in {u \in DOMAIN mp.w : mp.w[u][2] = i}}
+      \* particles to which the atoms mapped onto to-node i contribute (with any weight) and that carry its name
+      cand(i) == {out.parts[q].key : q \in {r \in DOMAIN out.parts :
+                      /\ out.parts[r].atomname = tn[i].atomname
+                      /\ \E c \in DOMAIN out.parts[r].cons : out.parts[r].cons[c][1] \in atomsTo(i)}}
+      keyOf(i) == IF tn[i].ptm THEN base + nth(i) ELSE IF cand(i) = {} THEN 0 - 1 ELSE MinOf(cand(i))
+      err == \E i \in DOMAIN tn : ~tn[i].ptm /\ cand(i) = {}
+      amb == \E i \in DOMAIN tn : ~tn[i].ptm /\ Cardinality(cand(i)) > 1
+      wsOf(k) == LET sel == SelectSeq(mp.w, LAMBDA t : keyOf(t[2]) = k) IN [j \in DOMAIN sel |-> <<f[sel[j][1]], sel[j][3]>>]
+      reused == {keyOf(i) : i \in {j \in DOMAIN tn : ~tn[j].ptm}}
+      toOf(k) == CHOOSE i \in DOMAIN tn : ~tn[i].ptm /\ keyOf(i) = k
+      upd(p) == IF p.key \notin reused THEN p
+                ELSE [p EXCEPT !.cons = GOverride(@, wsOf(p.key)),
+                               !.atype = IF tn[toOf(p.key)].ratype = "-" THEN @ ELSE tn[toOf(p.key)].ratype,
+                               !.mods = IF \E j \in DOMAIN @ : @[j] = mno THEN @ ELSE Append(@, mno)]
+      addedIdx == SelectSeq([i \in DOMAIN tn |-> i], LAMBDA i : tn[i].ptm)
+      newp(j) == LET i == addedIdx[j] IN
+                 [key |-> keyOf(i), resid |-> tn[i].resid, atomname |-> tn[i].atomname, atype |-> tn[i].atype, pl |-> plno,
+                  n2o |-> FALSE, added |-> TRUE, mods |-> <<mno>>, cons |-> wsOf(keyOf(i))]
+  IN IF err \/ amb THEN [out EXCEPT !.err = @ \/ err, !.amb = @ \/ amb]
+     ELSE [out EXCEPT !.parts = [q \in DOMAIN @ |-> upd(@[q])] \o [j \in DOMAIN addedIdx |-> newp(j)],
+                      !.edges = @ \cup {Norm(keyOf(mp.to.edges[e][1]), keyOf(mp.to.edges[e][2])) : e \in DOMAIN mp.to.edges},
+                      !.inters = GAddInters(@, [i \in DOMAIN mp.to.inters |->
+                                                  [mp.to.inters[i] EXCEPT !.atoms = [j \in DOMAIN @ |-> keyOf(@[j])]]], 1)]
+
+RECURSIVE GApplyAll(_, _, _, _)
+GApplyAll(out, mps, order, i) ==
+  IF i > Len(order) \/ out.err \/ out.amb THEN out
+  ELSE GApplyAll(IF order[i].kind = "block" THEN GApplyBlock(out, mps[order[i].m], order[i].f, i)
+                 ELSE GApplyMod(out, mps[order[i].m], order[i].m, order[i].f, i), mps, order, i + 1)
+
+\* ---- bonds between placements: a bonded pair of atoms that lies in two different placements connects every particle
+\*      the one atom contributes to with every particle the other contributes to (particles built from no atom excepted)
+GOutsOf(out, a) == {out.parts[i].key : i \in {j \in DOMAIN out.parts :
+                       ~out.parts[j].n2o /\ \E c \in DOMAIN out.parts[j].cons : out.parts[j].cons[c][1] = a}}
+GInterEdges(M, out, order) ==
+  LET atomsOf == [i \in DOMAIN order |-> RangeOf(order[i].f)]
+      plsOf(a) == {i \in DOMAIN order : a \in atomsOf[i]}
+      qual(a, b) == \E i \in plsOf(a) : \E j \in plsOf(b) : i # j
+  IN UNION {{Norm(q[1], q[2]) : q \in {r \in GOutsOf(out, M.edges[e][1]) \X GOutsOf(out, M.edges[e][2]) : r[1] # r[2]}}
+            : e \in {x \in DOMAIN M.edges : qual(M.edges[x][1], M.edges[x][2])}}
+
+GExpected(M, mps, order) ==
+  LET o1 == GApplyAll(GEmpty, mps, order, 1) IN [o1 EXCEPT !.edges = @ \cup GInterEdges(M, o1, order)]
+
+GCovered(order) == UNION {RangeOf(order[i].f) : i \in DOMAIN order}
+GUnmappedHeavy(C, order) == {n \in DOMAIN C.node : n \notin GCovered(order) /\ C.node[n].element # "H"}
+\* a block is placed on an atom that an earlier placement already uses
+GBlockOverlap(order) == \E i, j \in DOMAIN order : i < j /\ order[j].kind = "block" /\ RangeOf(order[i].f) \cap RangeOf(order[j].f) # {}
 =============================================================================
